@@ -101,7 +101,13 @@ type caseDesc struct {
 	ImplErr  string               `json:"impl_err,omitempty"`
 	Demand   string               `json:"property_demands,omitempty"`
 	Site     string               `json:"site,omitempty"`
+	// a step of a retry sequence on ONE caching client: the same Get with the reply corrupt, still corrupt, healed
+	Retry     []string `json:"retry,omitempty"`
+	RetryStep int      `json:"retry_step,omitempty"`
 }
+
+// the client shared by the steps of a retry sequence (nil: a fresh client per Get)
+var sharedClient *jrpc2.Client
 
 func parsePlan(s string) planFlags {
 	if s == "none" {
@@ -219,6 +225,9 @@ func runGet(ns *nodes, p planFlags, start, limit uint64, cs []simnode.Corruption
 	}
 	f.UseHeaders, f.UseBlocks, f.UseReceipts, f.UseLogs, f.UseTraces = p.Headers, p.Blocks, p.Receipts, p.Logs, p.Traces
 	c := jrpc2.New(url)
+	if sharedClient != nil {
+		c = sharedClient
+	}
 	var blocks []eth.Block
 	var err error
 	panicked, pmsg := lib.Catch(func() { blocks, err = c.Get(context.Background(), url, f, start, limit) })
@@ -353,6 +362,37 @@ func addGet(out *lib.Out, ns *nodes, p planFlags, start, limit uint64, cs []simn
 	return r
 }
 
+// addRetry: the same Get three times on ONE caching client: reply corrupt, still corrupt, healed.  A reply that
+// was rejected must never be served by a later call; once the node is healed the call returns the honest data.
+var retrySeq = []string{"corrupt", "still-corrupt", "healed"}
+
+func addRetry(out *lib.Out, ns *nodes, p planFlags, start, limit uint64, c simnode.Corruption) {
+	_, node := ns.pick(p, start)
+	sharedClient = jrpc2.New(node.URL() + "/cached")
+	defer func() { sharedClient = nil }()
+	for i, st := range retrySeq {
+		var cs []simnode.Corruption
+		if st != "healed" {
+			cs = []simnode.Corruption{c}
+		}
+		n0 := len(out.Cases)
+		r := addGet(out, ns, p, start, limit, cs, true, false, "retry-"+st)
+		// describe the step so that the whole sequence can be re-run
+		d := out.Cases[n0].Desc.(caseDesc)
+		d.Retry, d.RetryStep = retrySeq, i
+		d.Corrupt = []simnode.Corruption{c}
+		out.Cases[n0].Desc = d
+		if !out.Cases[n0].OracleOK {
+			out.Cases[n0].OracleMsg += fmt.Sprintf(" -- call %d (%s) of the same Get on one caching client after a rejected reply", i+1, st)
+		}
+		if i == 0 && (r.outcome != "err" || !(strings.HasPrefix(r.desc.ImplErr, "getting blocks:") || strings.HasPrefix(r.desc.ImplErr, "getting headers:"))) {
+			// the block / header reply itself was not rejected (accepted, or a later request failed:
+			// the accepted segment is legitimately cached): nothing to retry
+			return
+		}
+	}
+}
+
 // ---- Hash / Latest
 func addHead(out *lib.Out, ns *nodes, op string, n uint64, cs []simnode.Corruption) {
 	node := ns.n["A0"]
@@ -438,7 +478,7 @@ func runC07(cfg Cfg) error {
 	}
 	rng := lib.NewRNG(cfg.Seed)
 	out := lib.NewOut("C07", cfg.Out, c07Header, "run", 100)
-	out.Rule = "real jrpc2.Client.Get (nocache URL; a cached sample) against the scripted node for every plan and range: honest replies, every single corruption of the listed classes (thorough: every position; quick: every class per exchange, positions rotated by the seed), random double corruptions; Hash/Latest on null/error/transport replies. Compared with the Coq model: ok/err/panic and the canonical dump; oracle: the property's demand computed from the bytes sent. non-trivial = a corruption was applied or the result carries attached items"
+	out.Rule = "real jrpc2.Client.Get (nocache URL; a cached sample) against the scripted node for every plan and range: honest replies, every single corruption of the listed classes (thorough: every position; quick: every class per exchange, positions rotated by the seed), random double corruptions; for every rejected corruption of the block/header reply (plans h b hl br) the same Get twice more on the same caching client (still corrupt, healed); Hash/Latest on null/error/transport replies. Compared with the Coq model: ok/err/panic and the canonical dump; oracle: the property's demand computed from the bytes sent. non-trivial = a corruption was applied or the result carries attached items"
 	ns := newNodes()
 	defer ns.close()
 
@@ -452,7 +492,7 @@ func runC07(cfg Cfg) error {
 	} else {
 		ranges = []rg{{0, 1}, {0, 3}, {bigStart + 1, 2}, {1, 4}}
 	}
-	nsingle, ndouble := 0, 0
+	nsingle, ndouble, nretry := 0, 0, 0
 	for pi, ps := range allPlans {
 		p := parsePlan(ps)
 		for ri, r := range ranges {
@@ -498,6 +538,15 @@ func runC07(cfg Cfg) error {
 				addGet(out, ns, p, r.start, r.limit, []simnode.Corruption{c}, cached, false, "single-"+c.Kind)
 				nsingle++
 			}
+			// retries on one caching client after a rejected block / header reply
+			if (ps == "h" || ps == "b" || ps == "hl" || ps == "br") && (ri == 1 || ri == 2) && len(honest.sents) > 0 {
+				for _, c := range all {
+					if c.Target == honest.sents[0].Key {
+						addRetry(out, ns, p, r.start, r.limit, c)
+						nretry++
+					}
+				}
+			}
 			// random double corruptions
 			nd := 2
 			if cfg.Thorough() {
@@ -531,6 +580,7 @@ func runC07(cfg Cfg) error {
 	}
 	out.Notes["single_corruptions"] = nsingle
 	out.Notes["double_corruptions"] = ndouble
+	out.Notes["retry_sequences"] = nretry
 	out.Notes["plans"] = allPlans
 	out.Notes["ranges"] = fmt.Sprint(ranges)
 	out.Notes["exhaustive"] = cfg.Thorough()
@@ -558,7 +608,11 @@ func replay(cfg Cfg) error {
 	defer ns.close()
 	switch d.Op {
 	case "Get":
-		addGet(out, ns, parsePlan(d.Plan), d.Start, d.Limit, d.Corrupt, d.Cached, d.Filtered, "replay")
+		if len(d.Retry) > 0 && len(d.Corrupt) > 0 {
+			addRetry(out, ns, parsePlan(d.Plan), d.Start, d.Limit, d.Corrupt[0])
+		} else {
+			addGet(out, ns, parsePlan(d.Plan), d.Start, d.Limit, d.Corrupt, d.Cached, d.Filtered, "replay")
+		}
 	case "Hash", "Latest":
 		addHead(out, ns, d.Op, d.Start, d.Corrupt)
 	default:
